@@ -8,9 +8,17 @@
 //! capacity 1..65536 and the adversary used directly as the `BufRead` (tiny `fill_buf` windows). The transcripts
 //! (headers, records, byte digests, virtual positions, index values, `ERR:<kind>` / `END`) must be identical.
 //!
+//! Readers that sit on top of a `bgzf::io::Reader` (BAM, BCF, SAM.gz, VCF.gz, CSI, tabix) never see the chunking of
+//! the file (the BGZF layer reads whole blocks with `read_exact`); what they see is a short read at every block
+//! end. For them the inflated payload is additionally re-compressed into members of k payload bytes by the
+//! independent encoder and the transcripts are compared without the virtual positions (`reblocked`).
+//! `fasta::io::Reader::query` (seek + `read_sequence_limit`) has its own driver here.
+//!
 //! A difference is diagnosed by re-running the schedule without the interrupts and, for `BufReader` schedules,
-//! with a source that never delivers short: the signature names the kind, the reading API, the cause
-//! (`interrupted` / `capacity` / `short-read`) and the class of the first differing element.
+//! with a source that never delivers short: the signature is
+//! `<kind>:<reading API>:<interrupted|capacity|short-read|reblocked>:<class of the first difference>` — e.g.
+//! `record-differs`, `record-became-end`, `body-became-error(Interrupted)` — with the class collapsed to
+//! `differs@malformed` on malformed input, so that a finding on malformed input never covers valid input.
 
 use std::{
     collections::BTreeSet,
@@ -247,6 +255,15 @@ fn build_inputs(seed: u64, scale: u8, per_kind_malformed: usize) -> Vec<Input> {
     let fastq_odd = "@a b\r\nAC\r\n+a b\r\nII\r\n@c\r\nG\r\n+\r\nI";
     derived.push(mk_input(Kind::Fastq, "c12/fastq-crlf-no-final-eol".into(), fastq_odd.as_bytes().to_vec(), &Side::default(), "derived"));
     out.extend(derived);
+    // deterministic witnesses of known chunking-dependent readings of MALFORMED FASTA (see findings/C12.known)
+    for (name, text) in [
+        ("c12/fasta-definition-prefix-inside-sequence-line", ">a d\nACGT\nAC>GT x\nAAAA\n>b\nCC\n"),
+        ("c12/fasta-stray-cr-inside-sequence-line", ">a d\nACGT\nAC\rGT\nAAAA\n>b\nCC\n"),
+        // accepted by the indexer on the plain slice, so the region queries run
+        ("c12/fasta-definition-prefix-inside-sequence-line-indexable", ">a d\nACGT\nA >b\nCC\n"),
+    ] {
+        out.push(mk_input(Kind::Fasta, name.into(), text.as_bytes().to_vec(), &Side::default(), "malformed"));
+    }
 
     // malformed inputs: truncations and single corrupted bytes of the smallest non-trivial items of every kind
     let mut malformed = Vec::new();
@@ -267,6 +284,13 @@ fn build_inputs(seed: u64, scale: u8, per_kind_malformed: usize) -> Vec<Input> {
                     continue;
                 }
                 malformed.push(mk_input(kind, format!("{}+truncated@{c}", base.name), base.bytes[..c].to_vec(), &base.side, "malformed"));
+            }
+            // BGZF-wrapped kinds: the same behind the checksums (inflated payload truncated, re-compressed)
+            if let Some(n) = reblockable(base).filter(|&n| n > 8) {
+                let payload = vcore::bgzf::walk(&base.bytes).map(|w| w.concat()).unwrap_or_default();
+                for c in [n / 2, n - 1, rng.urange(1, n - 1)] {
+                    malformed.push(mk_input(kind, format!("{}+payload-truncated@{c}", base.name), vcore::bgzf::reseal(&payload[..c], 65280), &base.side, "malformed"));
+                }
             }
             for (p, mask, what) in safe_corruptions(base, &mut rng) {
                 let mut b = base.bytes.to_vec();
@@ -386,6 +410,11 @@ enum SizePat {
     /// cut at the given number of seeded random offsets
     RandomCuts(usize, u64),
     Script(Vec<usize>),
+    /// not a delivery of the same bytes: the inflated payload of a BGZF-wrapped file re-compressed into blocks of
+    /// `k` payload bytes, read from a plain slice. `bgzf::io::Reader::read` never crosses a block end, so the
+    /// reader stacked on top of it (BAM / BCF / SAM / VCF / CSI / tabix) sees a short read every `k` bytes.
+    /// Compared without the `V:` elements.
+    Reblock(usize),
 }
 
 #[derive(Clone, Debug)]
@@ -418,6 +447,7 @@ impl Sched {
             SizePat::Bounds(d) => format!("bounds{d:?}"),
             SizePat::RandomCuts(n, _) => format!("randomcuts{n}"),
             SizePat::Script(s) => format!("script{s:?}"),
+            SizePat::Reblock(k) => format!("reblock{k}"),
         }
     }
     fn intr_label(&self) -> String {
@@ -470,7 +500,7 @@ impl Sched {
         let len = inp.bytes.len();
         let cuts = self.cuts(inp);
         let sizes = match &self.sizes {
-            SizePat::Full => Sizes::Full,
+            SizePat::Full | SizePat::Reblock(_) => Sizes::Full,
             SizePat::Fixed(k) => Sizes::Fixed(*k),
             SizePat::Random(k, s) => Sizes::Random(*k, *s),
             SizePat::Bounds(_) | SizePat::RandomCuts(..) => Sizes::Cuts(cuts.clone()),
@@ -497,6 +527,15 @@ impl Sched {
     }
 }
 
+/// Payload length if the upper-layer reader of this input can be exercised by re-blocking: a BGZF-wrapped record
+/// or index kind whose file the strict independent walker accepts.
+fn reblockable(inp: &Input) -> Option<usize> {
+    if !matches!(inp.kind, Kind::Bam | Kind::Bcf | Kind::SamGz | Kind::VcfGz | Kind::Csi | Kind::Tbi) {
+        return None;
+    }
+    vcore::bgzf::walk(&inp.bytes).ok().map(|w| w.total as usize)
+}
+
 const CAPS: &[usize] = &[1, 2, 3, 5, 8, 16, 64, 4096, 65536];
 
 fn schedules(ctx: &Ctx, inp: &Input, key: u64) -> Vec<Sched> {
@@ -513,7 +552,7 @@ fn schedules(ctx: &Ctx, inp: &Input, key: u64) -> Vec<Sched> {
         add(SizePat::Fixed(k), IntrPat::None, default.clone());
     }
     let rand_k: &[usize] = if thorough { &[2, 3, 5, 8, 13, 64, 300, 1000, 5000, 70000] } else { &[5, 64, 1000, 70000] };
-    let rand_seeds = if thorough { 4 } else { 1 };
+    let rand_seeds = if thorough { 8 } else { 1 };
     for &k in rand_k {
         for _ in 0..rand_seeds {
             add(SizePat::Random(k, rng.next_u64()), IntrPat::None, default.clone());
@@ -562,6 +601,17 @@ fn schedules(ctx: &Ctx, inp: &Input, key: u64) -> Vec<Sched> {
         add(SizePat::Fixed(2), IntrPat::Every(2, 50), default.clone());
         add(SizePat::Fixed(7), IntrPat::Every(7, 50), default.clone());
         add(SizePat::Fixed(18), IntrPat::Every(18, 50), default.clone());
+    }
+
+    // --- readers stacked on a BGZF reader: short reads at every k-th payload byte through re-blocking
+    if let Some(n) = reblockable(inp) {
+        let ks: &[usize] = if thorough { &[1, 2, 3, 4, 5, 7, 8, 13, 17, 31, 64, 100, 1000, 4096, 65280] } else { &[1, 2, 3, 7, 64, 1000] };
+        for &k in ks {
+            // one member per payload byte costs 28+ file bytes per byte
+            if n / k <= if thorough { 40_000 } else { 12_000 } {
+                add(SizePat::Reblock(k), IntrPat::None, default.clone());
+            }
+        }
     }
 
     // --- BufRead-based readers: BufReader capacities and the adversary as the BufRead itself
@@ -681,6 +731,8 @@ struct Delivered {
     straddling: u64,
     /// deliveries that ended anywhere else inside the input
     inside: u64,
+    /// BGZF members of re-blocked files (= short reads seen by the stacked reader)
+    reblocked_members: u64,
 }
 
 fn classify_ends(ends: &[usize], bounds: &[usize], len: usize, d: &mut Delivered) {
@@ -707,10 +759,19 @@ type Outcome = Result<Vec<String>, guard::PanicInfo>;
 /// What a run needs besides the input (computed once per case).
 struct Aux {
     fasta: Option<FastaQueries>,
+    /// inflated payload (for the re-blocking schedules)
+    payload: Option<Vec<u8>>,
 }
 
 fn aux_for(inp: &Input, api: Api) -> Aux {
-    Aux { fasta: if api == Api::FastaQuery { fasta_queries(&inp.bytes) } else { None } }
+    Aux {
+        fasta: if api == Api::FastaQuery { guard::catch(|| fasta_queries(&inp.bytes)).ok().flatten() } else { None },
+        payload: if reblockable(inp).is_some() { vcore::bgzf::walk(&inp.bytes).ok().map(|w| w.concat()) } else { None },
+    }
+}
+
+fn strip_vpos(o: Outcome) -> Outcome {
+    o.map(|t| t.into_iter().filter(|e| !e.starts_with("V:")).collect())
 }
 
 fn run_plain(inp: &Input, api: Api, deep: bool, aux: &Aux) -> Outcome {
@@ -724,6 +785,13 @@ fn run_plain(inp: &Input, api: Api, deep: bool, aux: &Aux) -> Outcome {
 }
 
 fn run_sched(inp: &Input, api: Api, deep: bool, aux: &Aux, s: &Sched, d: Option<&mut Delivered>) -> Outcome {
+    if let (SizePat::Reblock(k), Api::Corpus(variant)) = (&s.sizes, api) {
+        let file = vcore::bgzf::reseal(aux.payload.as_deref().unwrap_or(&[]), *k);
+        if let Some(d) = d {
+            d.reblocked_members += aux.payload.as_ref().map(|p| p.len().div_ceil((*k).min(65280)) as u64).unwrap_or(0);
+        }
+        return strip_vpos(guard::catch(|| corpus::transcript_read_variant(inp.kind, variant, &file[..], &inp.side, deep, corpus::DEFAULT_CAP)));
+    }
     let mut tap = Tap::new(s.build(inp));
     let r = guard::catch(|| match (api, &s.mode) {
         (Api::Corpus(variant), Mode::Read(cap)) => corpus::transcript_read_variant(inp.kind, variant, &mut tap, &inp.side, deep, *cap),
@@ -778,7 +846,7 @@ fn clip(s: &str) -> String {
 }
 
 /// `None` if equal; otherwise (diff class, description).
-fn diff(reference: &Outcome, got: &Outcome) -> Option<(String, String)> {
+fn diff(reference: &Outcome, got: &Outcome, with_msg: bool) -> Option<(String, String)> {
     match (reference, got) {
         (Ok(a), Ok(b)) => {
             if a == b {
@@ -795,7 +863,11 @@ fn diff(reference: &Outcome, got: &Outcome) -> Option<(String, String)> {
             } else {
                 format!("{cx}-became-{cy}")
             };
-            let msg = corpus::last_error_message().map(|m| format!(" (last error text: {m})")).unwrap_or_default();
+            let msg = if y.map(|e| e.starts_with("ERR:")).unwrap_or(false) && with_msg {
+                corpus::last_error_message().map(|m| format!(" (error text: {m})")).unwrap_or_default()
+            } else {
+                String::new()
+            };
             Some((
                 class,
                 format!(
@@ -853,7 +925,7 @@ fn gen_world(ctx: &Ctx) -> World {
     let only_kind = ctx.param("kind").and_then(Kind::from_name);
     let only_input = ctx.param("input");
     // bytes * schedules per case
-    let chunk_budget = ctx.budget("chunk", 6_000_000, 6_000_000) as usize;
+    let chunk_budget = ctx.budget("chunk", 4_000_000, 4_000_000) as usize;
     let mut cases = Vec::new();
     for (ii, inp) in inputs.iter().enumerate() {
         if only_kind.map(|k| k != inp.kind).unwrap_or(false) {
@@ -884,11 +956,14 @@ fn case_json(w: &World, c: &Case) -> serde_json::Value {
 
 /// Which ingredient of the schedule the difference `class` is due to.
 fn cause_of(inp: &Input, api: Api, deep: bool, aux: &Aux, s: &Sched, reference: &Outcome, class: &str) -> &'static str {
+    if matches!(s.sizes, SizePat::Reblock(_)) {
+        return "reblocked";
+    }
     // an Interrupted error can only come from an injection
     if class.ends_with("error(Interrupted)") {
         return "interrupted";
     }
-    let same = |s2: &Sched| diff(reference, &run_sched(inp, api, deep, aux, s2, None)).map(|d| d.0 == class).unwrap_or(false);
+    let same = |s2: &Sched| diff(reference, &run_sched(inp, api, deep, aux, s2, None), false).map(|d| d.0 == class).unwrap_or(false);
     // 1. the same difference without the interrupts?
     if !matches!(s.intr, IntrPat::None) {
         let s2 = Sched { sizes: s.sizes.clone(), intr: IntrPat::None, mode: s.mode.clone() };
@@ -917,6 +992,7 @@ fn run_case(ctx: &Ctx, w: &World, c: &Case) -> CaseOut {
     let deep = inp.class != "malformed" && ctx.param("deep") != Some("0");
     let mut o = CaseOut::new();
     o.evaluations = 0;
+    let t0 = guard::thread_cpu_s();
     let aux = aux_for(inp, c.variant);
     if c.variant == Api::FastaQuery {
         match &aux.fasta {
@@ -960,13 +1036,27 @@ fn run_case(ctx: &Ctx, w: &World, c: &Case) -> CaseOut {
     let scheds = schedules(ctx, inp, sched_key(inp, c.variant));
     let mut d = Delivered::default();
     let mut reported = BTreeSet::new();
+    let mut reference_nov: Option<Outcome> = None;
     for s in &scheds[c.from..c.to] {
         let got = run_sched(inp, c.variant, deep, &aux, s, Some(&mut d));
         o.evaluations += 1;
         o.fps.push(fnv1a(format!("{kind}|{vname}|{}", s.label(bufread)).as_bytes()));
-        if let Some((class, desc)) = diff(&reference, &got) {
+        let d0 = if matches!(s.sizes, SizePat::Reblock(_)) {
+            let r = reference_nov.get_or_insert_with(|| strip_vpos(reference.clone()));
+            diff(r, &got, true)
+        } else {
+            diff(&reference, &got, c.variant != Api::FastaQuery)
+        };
+        if let Some((class, desc)) = d0 {
             let cause = cause_of(inp, c.variant, deep, &aux, s, &reference, &class);
-            let sig = format!("{kind}:{vname}:{cause}:{class}");
+            // malformed input: what exactly differs depends on where the damage is; the signature keeps kind, API and
+            // cause and is marked, so that a finding on malformed input never covers a difference on valid input
+            let sig = if inp.class == "malformed" && !class.ends_with("error(Interrupted)") {
+                let c = if class.starts_with("panic:") { class.as_str() } else { "differs" };
+                format!("{kind}:{vname}:{cause}:{c}@malformed")
+            } else {
+                format!("{kind}:{vname}:{cause}:{class}")
+            };
             if reported.insert(sig.clone()) {
                 o.violation_with(
                     sig,
@@ -979,12 +1069,18 @@ fn run_case(ctx: &Ctx, w: &World, c: &Case) -> CaseOut {
         }
     }
     o.count(&format!("deliveries[{kind}:{vname}]"), (c.to - c.from) as u64);
+    let tuples: BTreeSet<String> = scheds[c.from..c.to].iter().map(|s| s.label(bufread)).collect();
+    o.max(&format!("max_distinct_tuples_on_one_input_batch[{kind}:{vname}]"), tuples.len() as u64);
+    o.max("max_case_cpu_ms", ((guard::thread_cpu_s() - t0) * 1000.0) as u64);
     o.count(&format!("source_calls[{kind}]"), d.calls);
     o.count(&format!("short_deliveries[{kind}]"), d.short);
     o.count(&format!("interrupts_delivered[{kind}]"), d.interrupts);
     o.count(&format!("deliveries_ending_on_a_boundary[{kind}]"), d.aligned);
     o.count(&format!("deliveries_straddling_a_boundary_by_1_or_2_bytes[{kind}]"), d.straddling);
     o.count(&format!("deliveries_ending_elsewhere_inside[{kind}]"), d.inside);
+    if d.reblocked_members > 0 {
+        o.count(&format!("reblocked_members_read[{kind}]"), d.reblocked_members);
+    }
     o
 }
 
@@ -993,15 +1089,19 @@ fn main() {
     let ctx = vcore::cases::replay_request(&ctx).map(|r| r.1).unwrap_or(ctx);
     let mut rep = Report::new(
         "case = (input, reading API, batch of delivery schedules); input = every corpus item of every kind (scale 1 quick / 2 thorough) \
-         + CRLF / no-final-EOL / trailing-blank-line / multi-byte UTF-8 derivatives of the text kinds + truncated and single-corrupted-byte \
-         derivatives of the smallest items of every kind; schedule = (size pattern, Interrupted pattern, BufReader capacity | adversary used \
-         directly as BufRead); evaluations = adversary deliveries compared with the plain-slice transcript; distinct = distinct \
-         (kind, reading API, size pattern, interrupt pattern, capacity/mode) tuples; non-trivial = all",
+         + CRLF / no-final-EOL / trailing-blank-line derivatives of every small text item + hand-written multi-byte UTF-8, bare-line and \
+         blank-line files + truncated and single-corrupted-byte derivatives (file level, and behind the BGZF checksums) of the smallest items \
+         of every kind; reading API = every corpus transcript variant (lazy / eager / indexer), crai read_index, fasta Reader::query; \
+         schedule = (size pattern, Interrupted pattern, BufReader capacity | adversary used directly as BufRead), plus, for readers stacked \
+         on a BGZF reader, the same payload re-blocked into k-byte BGZF members; evaluations = adversary deliveries compared with the \
+         plain-slice transcript; distinct = distinct (kind, reading API, size pattern, interrupt pattern, capacity/mode) tuples; non-trivial = all",
     );
     rep.assumptions.push("oracle = the same noodles reader driven by the same corpus transcript driver on the plain slice (differential in the delivery schedule only)".into());
     rep.assumptions.push("Interrupted is injected at most once per source offset (finite); std::io::BufReader passes it through fill_buf, read_until / read_exact / read_to_end retry it".into());
     rep.assumptions.push("the Bgzf driver retries Interrupted itself (std::io::Read contract of bgzf::io::Reader::read); every other driver treats any error as final".into());
     rep.assumptions.push("inputs whose plain-slice run panics are skipped (C15)".into());
+    rep.assumptions.push("re-blocked deliveries are compared without the V: (virtual position) elements; the re-blocked file comes from the independent BGZF encoder (vcore::bgzf::reseal)".into());
+    rep.assumptions.push("format autodetection from a fill_buf window (noodles-util readers) is left to C20, which lists its short-first-read findings".into());
     let w = gen_world(&ctx);
     let f = |i: u64| -> CaseOut { run_case(&ctx, &w, &w.cases[i as usize]) };
     run_cases(&ctx, &mut rep, w.cases.len() as u64, 240.0, &f, &|i| case_json(&w, &w.cases[i as usize]));
